@@ -163,13 +163,13 @@ Proof.
     destruct ka, kb, pa, pb, wa, fh, fs; cbn; auto.
 Qed.
 
-(* without the repair: the pairs that are still dual-active after one exchange exist *)
+(* before b0a3819: the pairs that are still dual-active after one exchange exist *)
 Lemma core_dual_active_current_code :
   a_one_active (cxchg Defective false false true A (ActiveSolo, false, Active, true)) = false /\
   a_one_active (cxchg Defective false false false B (Active, false, ActiveSolo, false)) = false.
 Proof. split; reflexivity. Qed.
 
-(* ... but two exchanges always suffice, also for the current code *)
+(* ... but two exchanges always suffice, also for the original code *)
 Lemma core_dual_active_two v pa pb wa sa ka sb kb w1 w2 :
   is_active sa = true -> is_active sb = true ->
   a_one_active (cxchgs v pa pb wa [w1; w2] (sa, ka, sb, kb)) = true.
@@ -267,7 +267,7 @@ Proof.
     destruct pa, pb, wa, ff; cbn; intros H1 H2; try reflexivity; try discriminate H1; try discriminate H2.
 Qed.
 
-(* the current code: STANDBY/STANDBY without preempt is a fix-point of both exchanges *)
+(* the original code (before 8396862): STANDBY/STANDBY without preempt is a fix-point of both exchanges *)
 Lemma core_dual_standby_current_code wa :
   cxchg Defective false false wa A (Standby, true, Standby, true) = (Standby, true, Standby, true) /\
   cxchg Defective false false wa B (Standby, true, Standby, true) = (Standby, true, Standby, true).
